@@ -1,7 +1,7 @@
 (* Proofs/DelaunayFacts.v — lemmas about Model/Delaunay.v (C03).
    incircle_correct / circumcentre_equidistant: the exact predicates mean what they should (over Q);
    check_delaunay_sound / check_dual_sound: what the certificate checkers establish. *)
-From Coq Require Import List ZArith Bool Arith Lia ZifyBool QArith Psatz.
+From Coq Require Import List ZArith Bool Arith Lia ZifyBool QArith Psatz Permutation.
 From Koala Require Import Model.Lattice Model.Delaunay.
 Import ListNotations.
 Open Scope Z_scope.
@@ -464,4 +464,106 @@ Proof.
   intros S [[nx ny] m] cx cy HS [Hm [Hx Hy]]. cbn [fst snd] in *.
   assert (0 < m * S) by nia.
   split; apply cell_of_spec; nia.
+Qed.
+
+
+(* ---------- trivalence ---------- *)
+Definition ends (es : list (nat * nat)) : list nat := flat_map (fun e => [fst e; snd e]) es.
+
+Lemma count_ends_occ : forall L v, count_ends L v = count_occ Nat.eq_dec (ends (edges L)) v.
+Proof.
+  intros L v. unfold count_ends, ends. induction (edges L) as [|[j k] es IH]; [ reflexivity |].
+  cbn [fold_right flat_map app count_occ fst snd]. rewrite IH.
+  destruct (Nat.eq_dec j v) as [->|Hj], (Nat.eq_dec k v) as [->|Hk];
+    rewrite ?Nat.eqb_refl; try (apply Nat.eqb_neq in Hj; rewrite Hj); try (apply Nat.eqb_neq in Hk; rewrite Hk); lia.
+Qed.
+
+Lemma used_sides_fst : forall C vt es crs us, used_sides C vt es crs = Some us ->
+  map fst us = map (fun u => nth u vt 0%nat) (ends es).
+Proof.
+  intros C vt. induction es as [|[u v] es IH]; intros crs us H.
+  - cbn in H. inversion H. reflexivity.
+  - cbn [used_sides] in H. destruct crs as [|cr crs]; [ discriminate |].
+    destruct (find_match _ _ cr) as [[s s']|]; [| discriminate ].
+    destruct (used_sides C vt es crs) as [r|] eqn:Er; [| discriminate ].
+    inversion H; subst us. cbn [map ends flat_map app fst snd]. f_equal. f_equal. now apply IH with (crs := crs).
+Qed.
+
+Lemma count_occ_map_inj : forall (g : nat -> nat) (l : list nat) (v : nat) (D : nat -> Prop),
+  (forall x y, D x -> D y -> g x = g y -> x = y) -> D v -> (forall x, In x l -> D x) ->
+  count_occ Nat.eq_dec (map g l) (g v) = count_occ Nat.eq_dec l v.
+Proof.
+  intros g l v D Hinj Hv. induction l as [|x l IH]; intro Hl; [ reflexivity |].
+  cbn [map count_occ].
+  assert (Hx : D x) by (apply Hl; now left).
+  assert (IH' : count_occ Nat.eq_dec (map g l) (g v) = count_occ Nat.eq_dec l v) by (apply IH; intros y Hy; apply Hl; now right).
+  destruct (Nat.eq_dec (g x) (g v)) as [E|E], (Nat.eq_dec x v) as [E'|E']; try lia.
+  - exfalso. apply E'. now apply Hinj.
+  - exfalso. apply E. now subst.
+Qed.
+
+Lemma count_fst_prod : forall (l : list nat) (l' : list nat) (t : nat), NoDup l -> In t l ->
+  count_occ Nat.eq_dec (map fst (list_prod l l')) t = length l'.
+Proof.
+  induction l as [|x l IH]; intros l' t Hnd Hin; [ destruct Hin |].
+  cbn [list_prod]. rewrite map_app, count_occ_app, map_map. cbn [fst].
+  inversion Hnd as [|? ? Hx Hnd']; subst.
+  assert (Hrep : forall y, count_occ Nat.eq_dec (map (fun _ : nat => x) l') y = if Nat.eq_dec x y then length l' else 0%nat).
+  { intro y. induction l' as [|z l' IH']; cbn [map count_occ length]; destruct (Nat.eq_dec x y); try rewrite IH'; auto;
+      destruct (Nat.eq_dec x y); try contradiction; lia. }
+  rewrite Hrep. destruct Hin as [->|Hin].
+  - destruct (Nat.eq_dec t t); [| contradiction ].
+    assert (Hz : count_occ Nat.eq_dec (map fst (list_prod l l')) t = 0%nat).
+    { apply count_occ_not_In. intro H. apply in_map_iff in H. destruct H as [[a b] [Ha Hb]]. cbn in Ha. subst a.
+      apply in_prod_iff in Hb. now destruct Hb. }
+    lia.
+  - destruct (Nat.eq_dec x t) as [->|]; [ contradiction |]. rewrite IH; auto.
+Qed.
+
+Lemma NoDup_app_intro : forall (A : Type) (a b : list A),
+  NoDup a -> NoDup b -> (forall x, In x a -> ~ In x b) -> NoDup (a ++ b).
+Proof.
+  intros A. induction a as [|x a IH]; intros b Ha Hb Hd; [ exact Hb |].
+  inversion Ha as [|? ? Hx Ha']; subst. cbn [app]. constructor.
+  - intro Hin. apply in_app_or in Hin. destruct Hin as [Hin | Hin]; [ contradiction | apply (Hd x); [ now left | exact Hin ] ].
+  - apply IH; auto. intros y Hy. apply Hd. now right.
+Qed.
+
+Lemma NoDup_list_prod : forall (l l' : list nat), NoDup l -> NoDup l' -> NoDup (list_prod l l').
+Proof.
+  induction l as [|x l IH]; intros l' Hl Hl'; [ constructor |].
+  inversion Hl as [|? ? Hx Hl2]; subst. cbn [list_prod]. apply NoDup_app_intro.
+  - apply FinFun.Injective_map_NoDup; [ intros a b E; now inversion E | exact Hl' ].
+  - now apply IH.
+  - intros [a b] Hin Hin2. apply in_map_iff in Hin. destruct Hin as [y [E _]]. inversion E; subst.
+    apply in_prod_iff in Hin2. now destruct Hin2.
+Qed.
+
+Theorem dual_trivalent : forall S tolS shift pts C L vt,
+  check_dual S tolS shift pts C L vt = true ->
+  forall v, (v < nV L)%nat -> count_ends L v = 3%nat.
+Proof.
+  intros S tolS shift pts C L vt H v Hv.
+  destruct (check_dual_sound _ _ _ _ _ _ _ H) as (Hwf & _ & Hl1 & Hl2 & Hnd & Hrg & _ & _ & Hne & us & Hus & Hndus & _ & Hall).
+  rewrite count_ends_occ.
+  rewrite <- (count_occ_map_inj (fun u => nth u vt 0%nat) (ends (edges L)) v (fun x => (x < length vt)%nat)).
+  - rewrite <- (used_sides_fst _ _ _ _ _ Hus).
+    assert (Hperm : Permutation us (list_prod (seq 0 (length C)) (seq 0 3))).
+    { apply NoDup_Permutation; [ exact Hndus | apply NoDup_list_prod; apply seq_NoDup |].
+      intros [t s]. split.
+      - intro Hin. apply in_prod_iff. 
+        destruct (used_sides_range C vt (length C) (edges L) (crossing L) us Hus) with (x := (t, s)) as [Ha Hb]; auto.
+        + intros e He. rewrite Hl1. now apply wf_lattice_edges.
+        + cbn [fst snd] in *. split; apply in_seq; lia.
+      - intro Hin. apply in_prod_iff in Hin. destruct Hin as [Ht Hs]. apply in_seq in Ht. apply in_seq in Hs.
+        apply Hall; lia. }
+    pose proof (Permutation_map fst Hperm) as Hp2.
+    pose proof (proj1 (Permutation_count_occ Nat.eq_dec _ _) Hp2) as Hc. rewrite Hc.
+    rewrite count_fst_prod; [ reflexivity | apply seq_NoDup |].
+    apply in_seq. split; [ lia |]. cbn. apply Hrg. apply nth_In. lia.
+  - intros x y Hx Hy E. now apply (proj1 (NoDup_nth vt 0%nat) Hnd).
+  - lia.
+  - intros x Hx. unfold ends in Hx. apply in_flat_map in Hx. destruct Hx as [e [He Hx]].
+    destruct (wf_lattice_edges L Hwf e He) as [H1 H2]. rewrite Hl1.
+    destruct Hx as [<- | [<- | []]]; assumption.
 Qed.
